@@ -23,12 +23,12 @@ package vm
 // programs; compared with Verify on independent copies of the arguments.
 
 //verif:property C06
-//verif:bound step lemma: every opcode 0x00..0xff except 0xc0 (16 opcodes per obligation); data stack of 0..3 items, alt stack 0..1 items; every item is buf[o:o+l:c] of one 8-byte buffer with o in 0..maxOff, l in 0..maxLen (maxOff,maxLen <= 3 quick), spare capacity c-(o+l) in {0, 1, up to the end of the buffer}; buffer content, 5 bytes of instruction data, context values arbitrary; runLimit arbitrary in [0, 2^15]; with two or more items on the stack: item length <= 2 for opcodes 0x90..0x94, <= 1 for MUL/DIV/MOD 0x95..0x97 and for 0x98..0x9f (shifts, boolean and comparison operators)
-//verif:bound CHECKPREDICATE: child program from a menu of 8 programs (CAT, DUP CAT, 'X' CAT, SWAP CAT, 1 LEFT, TOALTSTACK, DROP, empty), 2 aliased items below the three operands
-//verif:bound Verify end to end: arguments decoded by the real ReadVarstrList from one 8-byte buffer holding any well-formed list of <= 3 arguments of <= 3 bytes with arbitrary content, one state item with spare capacity, the program with 2 bytes of spare capacity; menu of 14 programs of <= 7 instructions over splice/stack/bitwise opcodes, gas limit 10000
+//verif:bound step lemma: every opcode 0x00..0xff except 0xc0 (16 opcodes per obligation); data stack of 1..3 items (thorough: 4) and alt stack of 0..1 items; every item is a window buf[o:o+l:o+l+s] of one 8-byte buffer with offset o, length l <= 3 and spare capacity s all symbolic (overlaps allowed; l <= 2 at depth 3 and 4); buffer content, 5 bytes of instruction data, context values arbitrary; runLimit arbitrary in [0, 2^15]; with two or more items on the stack: item length <= 2 for opcodes 0x90..0x94, <= 1 for MUL/DIV/MOD 0x95..0x97 and for 0x98..0x9f (shifts, boolean and comparison operators)
+//verif:bound CHECKPREDICATE: real child VM run, child program from a menu of 8 programs (empty, CAT, DUP CAT, push CAT, SWAP CAT, 1 LEFT, TOALTSTACK, DROP), 2 (thorough: 3) aliased items below the three operands, 0..all of them handed to the child, runLimit arbitrary in [0, 2^12]
+//verif:bound Verify end to end: arguments decoded by the real ReadVarstrList from one 8-byte buffer holding any well-formed list of <= 3 arguments of <= 3 bytes with arbitrary content, one state item with spare capacity, the program with 2 bytes of spare capacity; menu of 14 programs of <= 7 instructions over splice/stack/bitwise/numeric opcodes with arbitrary push data, gas limit 10000
 //verif:assume context callbacks: TxSigHash returns a fixed arbitrary 32-byte value, CheckOutput returns fixed arbitrary (ok, err) -- the same for both runs
 //verif:assume hash functions and ed25519.Verify are uninterpreted functions of the byte values
-//verif:outside layouts spanning more than one shared buffer, items longer than 3 bytes (quick) / 4 bytes (thorough), stacks deeper than 3 (step lemma); CHECKPREDICATE child programs outside the menu; the trace writer (TraceOut != nil)
+//verif:outside layouts spanning more than one shared buffer, items longer than 3 bytes, data stacks deeper than 4 in the step lemma; CHECKPREDICATE child programs outside the menu; Verify programs outside the menu (the step lemma is the general argument, Verify is the end-to-end cross-check); the trace writer (TraceOut != nil); inside the region of KF-C06-CAT-APPEND other causes of the same assertion failures are not distinguished (the region is exact for the step lemma and CHECKPREDICATE, and 'program contains CAT/CATPUSHDATA' at the Verify level)
 //verif:override github.com/bytom/bytom/protocol/vm.Disassemble -> verifC06Disassemble
 //verif:obligation fn=VerifC06Step args=0,15,1,1,3;16,31,1,1,3;32,47,1,1,3;48,63,1,1,3;64,79,1,1,3;80,95,1,1,3;96,111,1,1,3;112,127,1,1,3;128,143,1,1,3;144,159,1,1,3;160,175,1,1,3;176,191,1,1,3;192,207,1,1,3;208,223,1,1,3;224,239,1,1,3;240,255,1,1,3 loops=300 secs=900 idx=ite
 //verif:obligation fn=VerifC06Step args=0,15,2,0,3;16,31,2,0,3;32,47,2,0,3;48,63,2,0,3;64,79,2,0,3;80,95,2,0,3;96,111,2,0,3;112,127,2,0,3;128,143,2,0,3;144,148,2,0,2;152,159,2,0,1;160,175,2,0,3;176,191,2,0,3;192,207,2,0,3;208,223,2,0,3;224,239,2,0,3;240,255,2,0,3 loops=300 secs=900 idx=ite validate=10
